@@ -32,7 +32,12 @@ def u(n):
 class V:
     """typed abstract value: kind in M (sparse) D (dense matrix) V (vector)
     S (scalar term, coq of type sexp) C (scalar constant, coq of type Qc)
-    P (static python value in .py)"""
+    P (static python value in .py)
+    X (the n.s.i. distance matrix path_lengths() + identity, inf where
+    unconnected; .coq = how a finite entry depends on the step count)
+    K (boolean mask: the unconnected pairs)
+    XV (vector X @ v: .coq = its value where every node is reachable, inf
+    elsewhere)"""
     def __init__(self, kind, coq=None, py=None):
         self.kind, self.coq, self.py = kind, coq, py
 
@@ -62,6 +67,8 @@ def as_vec(v):
     """vector, or scalar constant broadcast to a vector"""
     if v.kind == "V":
         return v.coq
+    if v.kind == "S" and v.coq == "(SVSum VW)":
+        return "VWtot"
     if v.kind == "C":
         return f"(VConst {v.coq})"
     if v.kind == "P" and isinstance(v.py, (int, float)) \
@@ -191,6 +198,18 @@ class Interp:
             if isinstance(t, ast.Name):
                 env[t.id] = self.expr(s.value, env)
                 return None
+            # X[np.isinf(X)] = 0 / D[np.isinf(X)] = 0 through named masks
+            if isinstance(t, ast.Subscript) and isinstance(t.value, ast.Name) \
+                    and isinstance(t.slice, ast.Name) and u(s.value) == "0":
+                tgt, mask = env.get(t.value.id), env.get(t.slice.id)
+                if tgt is not None and mask is not None and mask.kind == "K":
+                    if tgt.kind == "X":
+                        env[t.value.id] = V("D", f"(MDistFn {tgt.coq} B)")
+                        return None
+                    if tgt.kind == "D":
+                        env[t.value.id] = V("D",
+                                            f"(MHad {tgt.coq} (MConn B))")
+                        return None
             if isinstance(t, ast.Tuple) and isinstance(s.value, ast.Tuple) \
                     and len(t.elts) == len(s.value.elts) \
                     and all(isinstance(x, ast.Name) for x in t.elts):
@@ -221,6 +240,16 @@ class Interp:
             return V("M", "MA")
         if s == "self.sp_dtype":
             return P("dtype")
+        if s == "self.path_lengths() + np.identity(self.N)":
+            # n.s.i. distances: steps + 1 along A+, inf where unconnected
+            return V("X", "(fun k => qnat (S k))")
+        if isinstance(e, ast.BinOp) and isinstance(e.op, ast.Pow) \
+                and u(e.left) == "2.0" and isinstance(e.right, ast.UnaryOp) \
+                and isinstance(e.right.op, ast.USub):
+            x = self.expr(e.right.operand, env)
+            if x.kind == "X" and x.coq == "(fun k => qnat (S k))":
+                return V("D", "(MDistFn (fun k => qpow2inv (S k)) B)")
+            raise Unsupported("power " + s)
         if isinstance(e, ast.IfExp):
             return self.expr(e.body if self.static(e.test, env) else e.orelse,
                              env)
@@ -262,6 +291,16 @@ class Interp:
             if op is ast.Mult:
                 return P(a.py * b.py)
             raise Unsupported("static arithmetic " + u(e))
+        if op is ast.Div and b.kind == "X" and a.kind == "P" and a.py == 1 \
+                and b.coq == "(fun k => qnat (S k))":
+            return V("D", "(MDistFn (fun k => 1 / qnat (S k)) B)")   # 1/inf = 0
+        if op is ast.Div and a.kind == "S" and b.kind == "XV":
+            # s / inf = 0 unless every node is reachable
+            return V("V", f"(VMul (VAllConn B) (VDiv {as_vec(a)} {b.coq}))")
+        if op is ast.Div and a.kind == "V" and b.kind == "S":
+            return V("V", f"(VDiv {a.coq} {as_vec(b)})")
+        if op is ast.Pow and a.kind == "S" and b.kind == "P" and b.py == 2:
+            return V("S", f"(SMul {a.coq} {a.coq})")
         if op is ast.Mult:
             if k in ("MM", "DM", "MD"):
                 # scipy: sparse * sparse, ndarray * sparse, sparse * ndarray
@@ -382,6 +421,23 @@ class Interp:
             if v is None or v.kind != "V" or n is None or n.py != "N":
                 raise Unsupported(s)
             return V("D", f"(MMin2 (MT (MRows {v.coq})) (MRows {v.coq}))")
+        if u(f) == "np.isinf" and len(args) == 1 and not kw:
+            x = self.expr(args[0], env)
+            if x.kind != "X":
+                raise Unsupported(s)
+            return V("K", "unconnected")
+        if u(f) == "np.outer" and len(args) == 2 and not kw:
+            a, b = self.expr(args[0], env), self.expr(args[1], env)
+            if a.kind + b.kind != "VV":
+                raise Unsupported(s)
+            return V("D", f"(MHad (MT (MRows {a.coq})) (MRows {b.coq}))")
+        if u(f) == "np.dot" and len(args) == 2 and not kw:
+            a, b = self.expr(args[0], env), self.expr(args[1], env)
+            if a.kind == "X" and b.kind == "V":
+                return V("XV", f"(VMatVec (MDistFn {a.coq} B) {b.coq})")
+            if a.kind == "D" and b.kind == "V":
+                return V("V", f"(VMatVec {a.coq} {b.coq})")
+            raise Unsupported(s)
         if u(f) == "np.power" and len(args) == 2 and u(args[1]) == "-1":
             v = self.expr(args[0], env)
             if v.kind != "V":
@@ -411,6 +467,8 @@ class Interp:
                 b = self.expr(args[0], env)
                 if v.kind + b.kind == "VV":
                     return V("S", f"(SDot {v.coq} {b.coq})")
+                if v.kind + b.kind == "DV":
+                    return V("V", f"(VMatVec {v.coq} {b.coq})")
         raise Unsupported("call " + s)
 
 
@@ -439,7 +497,17 @@ TARGETS = [
     ("nsi_transitivity", "nsi_transitivity", False, {}),
     ("nsi_local_soffer_clustering", "nsi_local_soffer_clustering", False, {}),
     ("nsi_twinness", "nsi_twinness", False, {}),
+    ("nsi_average_path_length", "nsi_average_path_length", False, {}),
+    ("nsi_closeness", "nsi_closeness", False, {}),
+    ("nsi_harmonic_closeness", "nsi_harmonic_closeness", False, {}),
+    ("nsi_exponential_closeness", "nsi_exponential_closeness", False, {}),
+    ("nsi_global_efficiency", "nsi_global_efficiency", False, {}),
 ]
+# these are written with the distance matrix: parameter B = search bound of
+# the model's reachability (true distances for B >= N)
+DISTANCE = {"nsi_average_path_length", "nsi_closeness",
+            "nsi_harmonic_closeness", "nsi_exponential_closeness",
+            "nsi_global_efficiency"}
 for _m in ("cycle", "mid", "in", "out"):
     _n = f"nsi_local_{_m}motif_clustering"
     TARGETS.append((_n, _n, True, {}))
@@ -477,6 +545,8 @@ def generate(repo):
             params += " (tw : Qc)"
         if "key" in kwargs:
             params += " (a : nat)"
+        if name in DISTANCE:
+            params += " (B : nat)"
         out.append(f"Definition gen_{name}{params} : {COQTYPE[v.kind]} :=\n"
                    f"  {v.coq}.")
     return "\n".join(out) + "\n"
